@@ -8,9 +8,9 @@ RULE = ('n_v x velocity domain (symmetric, asymmetric, not containing 0) x splin
         'c*dt/dv in {0, +-0.3, +-1, +-2.5, +-(nv+1/2), +-(2nv+0.3)} with the sign obtained from c and from dt x r in {rMin, rp, rMax}; data = every unit '
         'vector, zero (isolates the affine boundary part), dense; oracle = exact-rational interpolation matrix evaluated at v-c*dt; outside the domain the '
         'independently coded closed-form equilibrium at (r, foot), 0, or the periodic image; feet within 1e-12*(vMax-vMin) of a boundary but not on it '
-        'are excluded (counted); the grid-level clause (gradient of the same global position) is decided in C05 (wiring:vpar, wiring:parallel-gradient); '
+        'are excluded (counted); grid-level clause: gridStep and gridStepKeepGradient on every process grid of a 5x6x7x8 grid (simulated world) against per-line step() of a serial operator with the serially computed gradient at the global (r,z,theta) of the line, two gradient-reusing calls with different dt; '
         'an evaluation is one step() call; non-trivial = some foot leaves the domain or lies strictly inside a cell')
-ASSUMPTIONS = ['pgv.refspline', 'tolerance 1e-12*||A^-1||_inf*max(1,|f|)', 'grid-level clause covered by C05']
+ASSUMPTIONS = ['pgv.refspline', 'tolerance 1e-12*||A^-1||_inf*max(1,|f|)', 'slice-level step() and ParallelGradient (decided by the other cases and by C13) serve as reference for the grid-level loops']
 
 NV = {'quick': [6, 7, 10], 'thorough': [6, 7, 10, 13]}
 SPACES = {'quick': [('cu', 3, None), ('nu', 2, [1, 2, 0.5]), ('nu', 3, [1, 1.5]), ('nu', 4, None)],
@@ -26,10 +26,96 @@ def cases(tier, seed):
             if tier == 'quick' and dom != [-3.0, 3.0] and nv != 7:
                 continue
             out.append({'nv': nv, 'space': list(sp), 'edge': edge, 'domain': dom, 'cost': nv * nv})
+    # grid-level clause: each (r, z, theta) line is advected with the gradient of the same GLOBAL position
+    npts = [5, 6, 7, 8]
+    grids = [[1, 1], [2, 1], [1, 2], [2, 2], [1, 3], [3, 2], [2, 3]] if tier == 'quick' else \
+        [[a, b] for a in range(1, 6) for b in range(1, 8) if a * b <= 12]
+    for g in grids:
+        for iota in (0.0, 0.8):
+            out.append({'kind': 'grid', 'npts': npts, 'grid': g, 'iota': iota, 'cost': 300 * g[0] * g[1]})
     return out
 
 
+def _grid_case(case):
+    import numpy as np
+    from pgv import sim
+    from checks import c05
+    MPI = sim.setup()
+    from pygyro.initialisation.setups import setupCylindricalGrid
+    from pygyro.model.layout import LayoutSwapper, Layout
+    from pygyro.model.grid import Grid
+    from pygyro.advection.advection import VParallelAdvection, ParallelGradient
+    npts = case['npts']
+    nprocs = case['grid']
+    PHI = c05._phi_global(npts)
+    dt = 0.7
+
+    def close(a, b):
+        return a.shape == b.shape and sim.maxrel(a, b) <= 1e-13
+
+    def fn(r):
+        comm = MPI.COMM_WORLD
+        viol = []
+        f, c, t = setupCylindricalGrid(layout='v_parallel', npts=list(npts), comm=comm, iotaVal=case['iota'], eps=0.1, m=3, n=-2,
+                                       vMin=-6.1, **c05.GEN)
+        eta = f.eta_grid
+        lvp = f.getLayout('v_parallel')
+        gi = sim.global_index_arrays(lvp)
+        f.getAllData()[:] *= 1 + 0.3 * np.sin(1.0 + gi[0] * 1.3 + gi[1] * 0.7 + gi[2] * 2.1 + gi[3] * 0.9)
+        spl = [f.getSpline(k) for k in range(4)]
+        lp = {'v_parallel_2d': [0, 2, 1], 'mode_solve': [1, 2, 0]}
+        rphi = LayoutSwapper(comm, [lp, {'v_parallel_1d': [0, 2, 1]}, {'poloidal': [2, 1, 0]}], [nprocs, nprocs[0], nprocs[1]], eta[:3], 'v_parallel_1d')
+        phi = Grid(eta[:3], f.getSpline(slice(0, 3)), rphi, 'v_parallel_1d', comm, dtype=np.complex128)
+        l1 = phi.getLayout('v_parallel_1d')
+        phi.getAllData()[:] = np.transpose(PHI, l1.dims_order)[tuple(slice(int(a), int(b)) for a, b in zip(l1.starts, l1.ends))]
+        vParAdv = VParallelAdvection(eta, spl[3], c)
+        parGrad = ParallelGradient(spl[1], eta, l1, c)
+        parGradVals = np.full([lvp.shape[0], npts[2], npts[1]], np.nan)
+        vParS = VParallelAdvection(eta, spl[3], c)
+        parGradS = ParallelGradient(spl[1], eta, Layout('v_parallel_1d', [1], [0, 2, 1], eta[:3], [0]), c)
+        n = 0
+        before = f.getAllData().copy()
+        vParAdv.gridStep(f, phi, parGrad, parGradVals, dt)
+        ders = {}
+        for i in range(before.shape[0]):
+            I = int(lvp.starts[0]) + i
+            plane = np.ascontiguousarray(PHI[I].T)
+            der = np.empty_like(plane)
+            parGradS.parallel_gradient(plane, I, der)
+            ders[i] = der
+            if not close(parGradVals[i], der):
+                viol.append('grid-step:gradient-table')
+        for name, h in (('gridStep', dt), ('gridStepKeepGradient', -0.4 * dt), ('gridStepKeepGradient', 0.5 * dt)):
+            if name != 'gridStep':
+                before = f.getAllData().copy()
+                vParAdv.gridStepKeepGradient(f, parGradVals, h)
+            ok = True
+            for i in range(before.shape[0]):
+                I = int(lvp.starts[0]) + i
+                for j in range(before.shape[1]):
+                    J = int(lvp.starts[1]) + j
+                    for k in range(before.shape[2]):
+                        e = before[i, j, k].copy()
+                        vParS.step(e, h, ders[i][J, k], eta[0][I])
+                        ok = ok and close(f.getAllData()[i, j, k], e)
+                        n += 1
+            if not ok:
+                viol.append('grid-level:%s:line-not-advected-with-gradient-of-its-global-position' % name)
+        return n, viol
+    res, _w = sim.run_world(nprocs, fn)
+    viols = {}
+    evals = 0
+    for rk, (n, vl) in enumerate(res):
+        evals += n
+        for v in vl:
+            viols.setdefault(v, {'sig': v, 'what': '%s on rank %d (npts %r process grid %r iota %g)' % (v, rk, npts, nprocs, case['iota']), 'detail': {}})
+    nt = evals if nprocs[0] * nprocs[1] > 1 else 0
+    return {'evals': evals, 'nontrivial': nt, 'violations': list(viols.values()), 'stats': {}, 'sample': {'grid': nprocs, 'lines': evals}}
+
+
 def run_case(case):
+    if case.get('kind') == 'grid':
+        return _grid_case(case)
     import numpy as np
     from pgv import sim, ops, refspline
     sim.setup()
